@@ -628,7 +628,7 @@ def rule_c14_last_location(ctx):
         if b_.is_derived:
             continue
         gets = [t for _, t in b_.calls() if short(callee_path(t) or "").endswith("HeaderMap::<T>::get_all")
-                and any(bytes(a.get("bytes", [])) == b"location" for a in t["args"] if isinstance(a, dict))]
+                and any(isinstance(a.get("bytes"), list) and bytes(a["bytes"]) == b"location" for a in t["args"] if isinstance(a, dict))]
         if not gets:
             continue
         idi = last_element_loops(b_)
